@@ -3,8 +3,8 @@
    same canonical string compare equal.  Statements only; proofs in
    Semver/Pep440Print_proofs.v.
 
-   The three clauses are false for the code as it is (known findings F-C10-2: release
-   segments after a wildcard, F-C10-3: numbers >= 2^63 stored as negative ints); the
+   The three clauses are false for the code as it is (known findings F-C10-21: release
+   segments after a wildcard, F-C10-22: numbers >= 2^63 stored as negative ints); the
    _refuted theorems exhibit the witnesses, which the check replays on the Go code.
    The _partial theorems are the clauses on the domain c10_pypi_dom (wildcard only in
    last position, no negative pre/post/dev number). *)
